@@ -42,11 +42,19 @@ Pairs == {<<Var(a), Var(b)>> : a, b \in Pool} \ {<<Var(a), Var(a)>> : a \in Pool
 KwPair == [name |-> <<"K">>, type |-> "pair", attrs |-> ("title" :> S(<<"T">>)), g |-> ""]
 Elems == Plain \cup (IF Nested THEN {Cmp(p) : p \in Pairs} \cup {Cmb(p) : p \in Pairs}
                                      \cup {CmbKw(p, KwPair) : p \in Pairs} ELSE {})
-Distinct(ch) == /\ \A i, j \in 1..Len(ch) : i # j => VarsOf(ch[i]) \cap VarsOf(ch[j]) = {}
-                /\ \A j \in 1..Len(ch) : ch[j].k = "cmb" => j = Len(ch)
-RECURSIVE Weight(_)
-Weight(ch) == IF ch = <<>> THEN 0 ELSE NVars(Head(ch)) + Weight(Tail(ch))
-Chains == {ch \in UNION {[1..n -> Elems] : n \in 1..MaxLen} : Distinct(ch) /\ Weight(ch) <= MaxLen}
+\* chains by total number of underlying variables: elements use pairwise different variables,
+\* a Combine only in the last position
+RECURSIVE VarsOfChain(_), ChainsW(_)
+VarsOfChain(ch) == IF ch = <<>> THEN {} ELSE VarsOf(Head(ch)) \cup VarsOfChain(Tail(ch))
+OkAppend(c, e) == /\ VarsOf(e) \cap VarsOfChain(c) = {}
+                  /\ c = <<>> \/ c[Len(c)].k # "cmb"
+ChainsW(w) ==
+  IF w = 0 THEN {<<>>}
+  ELSE LET c1 == ChainsW(w - 1)
+           c2 == IF w >= 2 THEN ChainsW(w - 2) ELSE {}
+       IN {Append(c, e) : c \in c1, e \in Plain} \cup {Append(c, e) : c \in c2, e \in Elems \ Plain}
+Chains == {ch \in UNION {ChainsW(w) : w \in 1..MaxLen} :
+             \A j \in 1..Len(ch) : OkAppend(SubSeq(ch, 1, j - 1), ch[j])}
 
 Unset == [d |-> DI(0), c |-> EmptyD]
 Init == /\ chain \in Chains
